@@ -356,11 +356,76 @@ func runC01(c *ctx) error {
 		check(9007199254740993, 9007199254740992, "bigint-jcs-rounding")
 		check(9007199254740991, 9007199254740990, "")
 	}
+	// genuine signatures over reduced field lists: a signer that does not include one of the mandatory fields
+	// (its own SignedFielder, or an older producer) makes a record whose value is a valid signature of its payload;
+	// verification against the presented step must still refuse it — whatever the pipeline env variables are called
+	// (a variable named like the missing field is signed as env::<name>, which is a different field)
+	for ki, k := range keys {
+		for _, dropped := range []string{"command", "env", "plugins", "matrix", "repository_url"} {
+			for _, envNamedLikeField := range []bool{false, true} {
+				step := &pipeline.CommandStep{Command: "make " + dropped, Env: map[string]string{"OWN": "1"}, Plugins: pipeline.Plugins{{Source: "docker#v1", Config: map[string]any{"image": "x"}}}}
+				repo := "git@host:o/r.git"
+				penv := map[string]string{"DEPLOY": "1"}
+				if envNamedLikeField {
+					penv[dropped] = "value-of-a-variable-named-like-the-field"
+				}
+				rf := &reducedFielder{inner: &signature.CommandStepWithInvariants{CommandStep: *step, RepositoryURL: repo}, drop: dropped}
+				var sig *pipeline.Signature
+				var serr, verr error
+				panicked, msg := guard(func() {
+					sig, serr = signature.Sign(context.Background(), k.signer, rf, signature.WithEnv(penv))
+					if serr == nil {
+						verr = signature.Verify(context.Background(), sig, k.verif, &signature.CommandStepWithInvariants{CommandStep: *step, RepositoryURL: repo}, signature.WithEnv(penv))
+					}
+				})
+				c.res.OracleChecks++
+				desc := map[string]any{"key": k.kind, "field not signed": dropped, "pipeline env": fmt.Sprint(penv)}
+				if panicked {
+					c.res.Fail(core.OracleFailure{What: "Sign / Verify panics on a reduced field list", Input: desc, Got: msg})
+					continue
+				}
+				if serr != nil {
+					continue // the signer itself refuses: nothing to verify
+				}
+				desc["signed_fields"] = fmt.Sprint(sig.SignedFields)
+				if verr == nil {
+					c.res.Fail(core.OracleFailure{What: "a genuine signature that does not cover the mandatory field " + dropped + " verifies", Input: desc, Got: "ok", Want: "err"})
+				}
+				c.res.Case(fmt.Sprintf("reduced-field-list:%d:%s:%v", ki, dropped, envNamedLikeField), true)
+			}
+		}
+	}
+	c.res.Hist("genuine-signatures-over-reduced-field-lists")
 	c.res.Rule = "command steps of generated pipelines signed with every key kind; for each, every applicable single-point mutation of the step (command, env, plugins incl. reorder/canonical spelling, matrix), the verification env, the repository URL, the signature record (algorithm, field list: drop mandatory / drop signed env / garbage / unsigned env:: / reorder+duplicate / empty, value corrupted or spliced from another step) and the key; expected verdict by construction. Non-trivial = a real mutation; distinct by (mutation, signed payload)."
 	mm, total, err := core.RunSessions(c.driver, []*core.Session{sess}, 20, 0)
 	c.res.ModelRequests = total
 	c.res.Mismatches = mm
 	return err
+}
+
+// reducedFielder: a SignedFielder that signs everything its inner one does except one field (verification
+// questions go to the inner one unchanged).
+type reducedFielder struct {
+	inner signature.SignedFielder
+	drop  string
+}
+
+func (r *reducedFielder) SignedFields() (map[string]any, error) {
+	m, err := r.inner.SignedFields()
+	if err != nil {
+		return nil, err
+	}
+	out := map[string]any{}
+	for k, v := range m {
+		if k != r.drop {
+			out[k] = v
+		}
+	}
+	return out, nil
+}
+
+func (r *reducedFielder) ValuesForFields(f []string) (map[string]any, error) {
+	return r.inner.ValuesForFields(f)
 }
 
 // withPluginSuffix: the source with "-buildkite-plugin" appended to its name part (before any #ref).
